@@ -16,7 +16,7 @@ CLAIMED = {
          "complete over intervals 1..9/12, powers of two 2^0..2^4/5 and boundary relations at 2^20/2^32/2^62, all key-point lists with gaps {1,2,3} up to 4/5 blocks",
          "offset+length+interval < 2^64; NDEBUG build", "3 C15"),
 }
-NA_REASON = "engine/harness not built yet (implementation in progress; see DESIGN.md section 8)"
+NA_REASON = "harness still being built at the time of this commit (see DESIGN.md section 3); no weaker technique is substituted"
 extra = os.path.join(V, 'tools', 'manifest_extra.json')
 if os.path.exists(extra):
     for k, v in json.load(open(extra)).items():
